@@ -258,7 +258,7 @@ class NumericImporter:
             if exception_message != 0:
                 ops.raiseNumericException(exception_message, exception_args)
 
-        elif self.dtype in ('int8', 'uint8', 'int16', 'uint16', 'int32', 'uint32', 'int64') :
+        elif self.dtype in ('int8', 'uint8', 'int16', 'uint16', 'int32', 'uint32', 'int64', 'uint64') :
             elements, validity = ops.transform_int(
                 column_inds, column_vals, column_offsets, col_idx,
                 written_row_count, self.invalid_value, self.validation_mode,
